@@ -1,0 +1,114 @@
+//go:build verif
+
+package simdjson
+
+import "sync/atomic"
+
+// Verification hooks, compiled only with -tags verif. They let a test harness observe and gate the hand-off
+// points between the stage-1 producer and the stage-2 consumer, and the completion of ParseNDStream chunks.
+// With no hook installed every call is a cheap no-op.
+
+const (
+	verifEvAcquire = iota + 1
+	verifEvSend
+	verifEvSent
+	verifEvTermSend
+	verifEvTermSent
+	verifEvRecvGate
+	verifEvReceived
+	verifEvDrainStart
+	verifEvDrainReceived
+)
+
+// Exported mirrors of the event numbers and ring geometry.
+const (
+	VerifEvAcquire       = verifEvAcquire
+	VerifEvSend          = verifEvSend
+	VerifEvSent          = verifEvSent
+	VerifEvTermSend      = verifEvTermSend
+	VerifEvTermSent      = verifEvTermSent
+	VerifEvRecvGate      = verifEvRecvGate
+	VerifEvReceived      = verifEvReceived
+	VerifEvDrainStart    = verifEvDrainStart
+	VerifEvDrainReceived = verifEvDrainReceived
+
+	VerifIndexSlots = indexSlots
+	VerifIndexSize  = indexSizeWithSafetyBuffer
+)
+
+// VerifPipeEvent describes one hand-off event.
+type VerifPipeEvent struct {
+	Ev      int
+	N       uint64   // buffer sequence number (producer events)
+	ChanCap int      // live capacity of the index channel
+	ChanLen int      // items queued right now
+	Index   int      // index field of the buffer descriptor (-1: terminator)
+	Length  int      // number of indexes in the buffer
+	Buf     []uint32 // the buffer's indexes (aliases the ring slot; nil for the terminator)
+}
+
+type verifPipeFn func(VerifPipeEvent)
+
+var verifPipeHook atomic.Value // verifPipeFn
+
+// VerifSetPipeHook installs (or with nil removes) the pipeline hook.
+func VerifSetPipeHook(f func(VerifPipeEvent)) {
+	if f == nil {
+		verifPipeHook.Store(verifPipeFn(nil))
+		return
+	}
+	verifPipeHook.Store(verifPipeFn(f))
+}
+
+func verifPipe(pj *internalParsedJson, ev int, n uint64, ic indexChan) {
+	f, _ := verifPipeHook.Load().(verifPipeFn)
+	if f == nil {
+		return
+	}
+	e := VerifPipeEvent{Ev: ev, N: n, ChanCap: cap(pj.indexChans), ChanLen: len(pj.indexChans), Index: ic.index, Length: ic.length}
+	if ic.indexes != nil && ic.length >= 0 && ic.length <= len(ic.indexes) {
+		e.Buf = ic.indexes[:ic.length]
+	}
+	f(e)
+}
+
+// Stream hooks.
+
+type verifStreamFn func(ev string, seq int)
+
+var (
+	verifStreamHook atomic.Value // verifStreamFn
+	verifStreamCtr  int64
+)
+
+// VerifSetStreamHook installs (or with nil removes) the ParseNDStream hook and resets the chunk counter.
+// Events: "queued" (chunk handed to a parser goroutine), "parsed" (chunk parsed, result not yet sent; the hook may
+// block here to force a completion order), "reader-done".
+func VerifSetStreamHook(f func(ev string, seq int)) {
+	atomic.StoreInt64(&verifStreamCtr, 0)
+	if f == nil {
+		verifStreamHook.Store(verifStreamFn(nil))
+		return
+	}
+	verifStreamHook.Store(verifStreamFn(f))
+}
+
+func verifStreamNext() int {
+	seq := int(atomic.AddInt64(&verifStreamCtr, 1)) - 1
+	if f, _ := verifStreamHook.Load().(verifStreamFn); f != nil {
+		f("queued", seq)
+	}
+	return seq
+}
+
+func verifStreamParsed(seq int) {
+	if f, _ := verifStreamHook.Load().(verifStreamFn); f != nil {
+		f("parsed", seq)
+	}
+}
+
+func verifStreamReaderDone() {
+	if f, _ := verifStreamHook.Load().(verifStreamFn); f != nil {
+		f("reader-done", -1)
+	}
+}
